@@ -274,6 +274,10 @@ SQUIDS_ALWAYS_INLINE double SUTrace(const SU_vector& suv1_, const SU_vector& suv
   
   auto suv1=detail::SU_vector_operator_access::make_view(suv1_);
   auto suv2=detail::SU_vector_operator_access::make_view(suv2_);
+  //unless the caller guarantees it, the operands must have the same size;
+  //otherwise the loop below runs past the end of the smaller one
+  if(!(Flags&detail::EqualSizes) && suv1.size!=suv2.size)
+    throw std::runtime_error("Non-matching dimensions in SU_vector inner product");
   
   double trace;
   const double* suv1c=suv1.components;
